@@ -27,9 +27,6 @@ Definition order_keys (o : order) : list skey :=
 (* orderBy=[] makes doSort recurse for ever and renders an empty ORDER BY *)
 Definition order_ok (o : order) : bool :=
   match o with OList [] => false | _ => true end.
-Definition col_is_id (c : col) : bool := match c with CId => true | _ => false end.
-Definition order_mentions_id (o : order) : bool :=
-  existsb (fun k => col_is_id (k_col k)) (order_keys o).
 
 (* None (SQL NULL) sorts below every integer: joins.Min on the Python side,
    NULLS FIRST (ascending) in sqlite *)
@@ -351,12 +348,12 @@ Definition sql_multiple (o : order) (s : state) (a : Z) : jres (list row) :=
   if order_ok o then JOk (filter (fk_is a) (tB s)) else JDbError.
 
 (* SOSQLRelatedJoin: FROM t, other, this WHERE other.id = t.othercol AND
-   t.joincol = this.id AND this.id = inst.  A string orderBy that is not a
-   column of the other class -- 'id' -- is rendered unqualified, and `id` is
-   ambiguous between the joined tables: the statement is refused. *)
+   t.joincol = this.id AND this.id = inst.  The ordering columns -- 'id'
+   included, since _mungeOrderBy maps it to the other class's qualified id
+   column -- are columns of the other class. *)
 Definition sql_related_sel : jrole * jrole := gen_sqlrelated_select.
 Definition sql_related (j : rjoin) (o : order) (s : state) (inst : Z) : jres (list row) :=
-  if negb (order_ok o) || order_mentions_id o then JDbError
+  if negb (order_ok o) then JDbError
   else if live (j_owner j) inst s then
     JOk (flat_map (fun i => match get_row (tab (j_other j) s) i with Some r => [r] | None => [] end)
                   (select_link j sql_related_sel inst s))
